@@ -209,7 +209,17 @@ class SE:
                     eq = (a == b)
                     return z3.BoolVal(eq if i == '=' else not eq)
                 raise Unsupported('pointer comparison')
-            return {'=': a == b, 'notequal': a != b, '<': a < b, '<=': a <= b, '>': a > b, '>=': a >= b}[i]
+            if z3.is_bool(a) != z3.is_bool(b):
+                a = z3.If(a, z3.IntVal(1), z3.IntVal(0)) if z3.is_bool(a) else a
+                b = z3.If(b, z3.IntVal(1), z3.IntVal(0)) if z3.is_bool(b) else b
+            if i == '=':
+                return a == b
+            if i == 'notequal':
+                return a != b
+            if z3.is_bool(a):
+                a = z3.If(a, z3.IntVal(1), z3.IntVal(0))
+                b = z3.If(b, z3.IntVal(1), z3.IntVal(0))
+            return {'<': lambda: a < b, '<=': lambda: a <= b, '>': lambda: a > b, '>=': lambda: a >= b}[i]()
         if i in ('shl', 'lshr', 'ashr'):
             a = self.ev(sub[0], st)
             b = z3.simplify(self.ev(sub[1], st))
@@ -358,7 +368,7 @@ class SE:
 
 
 def load_goto(gb):
-    rc, out, err, _ = sh(['cbmc', '--show-goto-functions', '--json-ui', gb], timeout=120)
+    rc, out, err, _ = sh(['cbmc', '--no-standard-checks', '--show-goto-functions', '--json-ui', gb], timeout=120)
     try:
         d = json.loads(out)
     except ValueError:
@@ -433,7 +443,7 @@ def work(check, unit_c, wd_dir, tier):
     rc, out, err, _ = sh(cmd, timeout=120)
     if rc != 0:
         raise Undecided('goto-cc failed [%s]: %s' % (tag, (out + err)[-2000:]))
-    gi = ['goto-instrument', '--signed-overflow-check', '--div-by-zero-check', '--undefined-shift-check']
+    gi = ['goto-instrument', '--no-pointer-check', '--no-bounds-check', '--no-pointer-primitive-check', '--signed-overflow-check', '--div-by-zero-check', '--undefined-shift-check']
     if zopts.get('unsigned_overflow', False):
         gi.append('--unsigned-overflow-check')
     gi += list(check.gi_flags) + [gb, gb2]
